@@ -145,6 +145,41 @@ pub const ATOMS: [&str; 64] = ["@octocat", "@a", "@rust-lang", "\"quick\"", "“
     "1st", "2nd", "22nd", "don't", "o'clock", "...", "well-known", "$5", "5%", "#tag", "a@b.com", "http://x.y/z", "x86", "3.14", "1,000",
     "0x1F", "(paren)", "[bracket]", "—", "-", "--", "/", "C++", "it's", "’s", "1980s", "U.S.", "Mr.", "a.m.", "…", "!?", "§", "\u{a0}",
     "\t", "  ", "the", "teh", "a", "I", "word", "Ünïcödé", "世界", "😀", ",", ";", ":", ".", "!", "?", "\n", "\n\n", "&", "10:30"];
+/// A numeric literal in one of the shapes the lexer knows or nearly knows: hex and decimal of 1-40 digits
+/// (beyond 2^53, 2^64 and 2^128), leading zeros, fractions, exponents, separators, ordinal suffixes.
+pub fn number_atom(rng: &mut Rng) -> String {
+    let digits = |rng: &mut Rng, n: usize, set: &str| -> String { let cs: Vec<char> = set.chars().collect(); (0..n).map(|_| *rng.pick(&cs[..])).collect() };
+    let len = *rng.pick(&[1usize, 2, 3, 8, 15, 16, 17, 18, 19, 20, 21, 32, 33, 40]);
+    let (a, b, c) = (rng.range(1, 20), rng.range(1, 17), rng.range(1, 6));
+    let mut s = match rng.below(10) {
+        0 => format!("0x{}", digits(rng, len, "0123456789abcdef")),
+        1 => format!("0x{}", digits(rng, len, "0123456789ABCDEF")),
+        2 => format!("0x{}{}", "0".repeat(a), digits(rng, b, "0123456789abcdef")),
+        3 => format!("0x{}", "f".repeat(len)),
+        4 => digits(rng, len, "0123456789"),
+        5 => format!("{}{}", "0".repeat(c), digits(rng, c, "0123456789")),
+        6 => format!("{}.{}", digits(rng, a, "0123456789"), digits(rng, b, "0123456789")),
+        7 => format!("{}e{}{}", rng.range(1, 99), ["", "-", "+"][rng.below(3)], rng.range(0, 400)),
+        8 => format!("{},{}", rng.range(1, 999), digits(rng, 3, "0123456789")),
+        _ => format!("{}", rng.next() >> rng.below(60)),
+    };
+    if rng.chance(1, 4) { s.push_str(*rng.pick(&["st", "nd", "rd", "th", "TH", "s", "x", "%", ".", ".5", "px"])); }
+    s
+}
+
+/// A URL-like literal assembled from optional parts: scheme, credentials, host, port, path, query, fragment.
+pub fn url_atom(rng: &mut Rng) -> String {
+    let mut s = String::new();
+    if !rng.chance(1, 6) { s.push_str(*rng.pick(&["http", "https", "ftp", "ssh", "ws", "git", "file", "foo", "mailto"])); s.push_str(*rng.pick(&["://", "://", ":", ":/"])); }
+    if rng.chance(1, 2) { s.push_str(*rng.pick(&["git", "admin", "u", "bob.smith", "ü"])); if rng.chance(1, 2) { s.push(':'); s.push_str(*rng.pick(&["secret", "p", "", "a:b"])); } s.push('@'); }
+    s.push_str(*rng.pick(&["example.com", "localhost", "files.example.co.uk", "127.0.0.1", "[::1]", "h", "xn--bcher-kva.example", "a-b.c"]));
+    if rng.chance(1, 2) { s.push(':'); s.push_str(*rng.pick(&["80", "2222", "8080", "0", "65536", "", "99999999999999999999"])); }
+    if rng.chance(1, 2) { s.push_str(*rng.pick(&["/", "/pub", "/a/b.html", "/~u/x_y", "/%20"])); }
+    if rng.chance(1, 4) { s.push_str(*rng.pick(&["?q=1", "?a=b&c=d", "?"])); }
+    if rng.chance(1, 5) { s.push_str(*rng.pick(&["#frag", "#"])); }
+    s
+}
+
 pub fn token_soup(rng: &mut Rng) -> String {
     let n = rng.range(2, 12);
     let mut out = String::new();
@@ -154,11 +189,41 @@ pub fn token_soup(rng: &mut Rng) -> String {
         if Some(i) == quote_at {
             let (o, c) = *rng.pick(&[("\"", "\""), ("“", "”"), ("\"", "”")]);
             out.push_str(o); out.push_str(*rng.pick(&ATOMS[..])); out.push_str(c);
+        } else if rng.chance(1, 5) {
+            out.push_str(&number_atom(rng));
+        } else if rng.chance(1, 6) {
+            out.push_str(&url_atom(rng));
         } else {
             out.push_str(*rng.pick(&ATOMS[..]));
         }
     }
     out
+}
+
+/// A Markdown document that ENDS inside a nested block (loose list item, heading inside an item, quote inside an
+/// item, nested list, table cell) with a sentence of more than forty words, with or without a final mark and a
+/// final line feed: the structural break tokens at the end of such a document are zero-width and pile up.
+pub fn long_tail_markdown(corpus: &[String], rng: &mut Rng) -> String {
+    let mut words: Vec<String> = Vec::new();
+    while words.len() < rng.range(41, 60) {
+        for w in rng.pick(corpus).split_whitespace() { words.push(w.trim_matches(|c: char| !c.is_alphanumeric()).to_string()); }
+        words.retain(|w| !w.is_empty());
+    }
+    let mut long = words.join(" ");
+    match rng.below(4) { 0 => long.push('.'), 1 => long.push('?'), _ => {} }
+    let mut doc = match rng.below(9) {
+        0 => format!("- A short item.\n\n- {long}"),
+        1 => format!("- A short item.\n- {long}"),
+        2 => format!("1. One.\n\n   # Heading {long}"),
+        3 => format!("- outer\n  - inner {long}"),
+        4 => format!("> quoted {long}"),
+        5 => format!("- item\n\n  > {long}"),
+        6 => format!("| a | b |\n|---|---|\n| c | {long} |"),
+        7 => format!("Intro paragraph.\n\n{long}"),
+        _ => format!("# {long}"),
+    };
+    match rng.below(3) { 0 => doc.push('\n'), 1 => doc.push_str("\n\n"), _ => {} }
+    doc
 }
 
 pub fn adversarial() -> Vec<String> {
